@@ -599,6 +599,9 @@ def run(ctx):
     # shared infrastructure this property leans on (rules/families.py): each member is the same rule instance as in its home property
     from rules import families as _fam
     _fam.thread_list(ctx, "C03")
+    # the stop is awaited on the kernel's own answer: Stat::state() of /proc/<pid>/stat == Stopped (same rule instance as C11/stop-state-source)
+    from rules import c11 as _c11s
+    _c11s.rule_stop_state_source(ctx, R="C03/stop-state-source")
 
 
 def thorough(ctx):
